@@ -303,6 +303,8 @@ var msgVocab = []interface{}{
 	[]interface{}{1.0, 2.0},
 	map[string]interface{}{"t": "b"},
 	true,
+	[]interface{}{1.0, 2.0, 3.0},
+	map[string]interface{}{"k": "a", "t": "a"},
 	map[string]interface{}{"k": []interface{}{map[string]interface{}{"id": 1.0}, map[string]interface{}{"id": 2.0}}},
 	map[string]interface{}{"likes": map[string]interface{}{"items": []interface{}{map[string]interface{}{"id": "a"}}}},
 }
@@ -330,6 +332,15 @@ var msgPatterns = []interface{}{
 	map[string]interface{}{},
 	map[string]interface{}{"?p": "a"},
 	map[string]interface{}{"n": "?<lim"},
+}
+
+// patterns with several matches against the multi-valued messages of msgVocab
+var multiPatterns = []interface{}{
+	[]interface{}{"?e"},
+	[]interface{}{1.0, "?e"},
+	map[string]interface{}{"?p": "a"},
+	map[string]interface{}{"k": []interface{}{"?e"}},
+	map[string]interface{}{"k": []interface{}{map[string]interface{}{"id": "?i"}}},
 }
 
 var bsPatterns = []interface{}{
@@ -380,6 +391,22 @@ func (g *G) branch(msgType bool, mode string) BranchD {
 		} else {
 			b.Pattern = DeepCopy(bsPatterns[g.Intn(len(bsPatterns))])
 		}
+	}
+	if msgType && g.P(1, 10) {
+		// a guarded branch whose pattern can match in several ways (the candidates come out of map
+		// iteration in any order): the guard is native and treats every candidate alike — hands back
+		// fixed bindings, says no, or fails — so the step's outcome does not depend on that order,
+		// while the harness's log of guard calls shows whether the loop stopped at the first accept
+		b.Pattern = DeepCopy(multiPatterns[g.Intn(len(multiPatterns))])
+		gd := &Prog{Lang: "native", Ret: "fresh", Ops: [][]interface{}{}}
+		switch g.Intn(6) {
+		case 0:
+			gd.Ret = "null"
+		case 1:
+			gd.Ops = append(gd.Ops, []interface{}{"fail", g.boom()})
+		}
+		b.Guard = gd
+		return b
 	}
 	if g.P(1, 4) {
 		// a guarded branch: keep to patterns that yield at most one candidate
